@@ -77,7 +77,14 @@ func (c *Cache[K, D]) Load(key K) (actual *Element[D]) {
 func (c *Cache[K, D]) CheckExpirations(now time.Time) {
 	c.Range(func(key K, value *Element[D]) bool {
 		if value.IsExpired(now) {
-			c.Delete(key)
+			// Range hands out the pair without holding the lock: remove the entry only if it is
+			// still this expired element, a fresh one stored in the meantime must survive.
+			c.ReplaceWithFunc(key, func(oldValue *Element[D], oldLoaded bool) (*Element[D], bool) {
+				if oldLoaded && oldValue != value {
+					return oldValue, false
+				}
+				return oldValue, true
+			})
 			value.onExpire(value.Data())
 		}
 		return true
